@@ -19,7 +19,7 @@ ASSUMPTIONS = ["Rust's `{:.N}` / Display are correctly rounded / shortest (the m
                "decimal digits 0..9 as the property says (10..22 are exercised without oracle for panics only in C01)"]
 TRUSTED = ["atom lexer glue ([NUMBER:x] parses x with str::parse::<f64>)"]
 
-SEPS = [(",", "."), (".", ","), (",", ""), (".", ""), (",", " ")]
+SEPS = [(",", "."), (".", ","), (",", ""), (".", ""), (",", " "), (",", "&nbsp;"), (".", ", "), (",", "''"), (",", "\u202f")]
 
 
 def fixed(x, n):
